@@ -65,7 +65,8 @@ SCALAR_RULE = ("complete enumeration of the value alphabet V64 (exhaustive prefi
                "every family boundary, the 5-symbols-per-byte product 5^8, byte sweeps, walking bits) through every "
                "entry point of every scalar family on the real code (macro forms with an expression operand that differs on "
                "re-evaluation; the bounded tagged reader with 28 available-byte counts up to INT32_MAX; 1..16-byte wide "
-               "external forms over a 150 x 150 product of 64-bit halves; the bit writer / reader directly at every start "
+               "external forms over a 150 x 150 product of 64-bit halves; macro hygiene: every operand position of 45 macros bound to 45 "
+               "common identifiers and written as 5 compound shapes and as literals; the bit writer / reader directly at every start "
                "position 0..71 x width 1..64 and at far stream positions 2^31..2^42 in a PROT_NONE reservation); a class is "
                "a distinct (family, entry point, encoded length, alignment) combination reached")
 
@@ -168,7 +169,9 @@ ARRAY_RULE = ("every array of the corpus A (S1: all arrays of length 1-3 over a 
               "S4: every length 1..72/300 x (minimum class, spread at both ends of each byte class, stride, 0-2 outliers, "
               "order); S2f: lengths 301..4200 (thorough: every one); S2q: 65536 and the 67823|67824 tagged-count boundary; giant: "
               "1,048,577 elements (clustered with the minimum at an odd index; all distinct), thorough optimised builds also "
-              "3,000,000 and 16,777,215..16,777,217) through every codec entry point on the real code, each typed input at 2 (thorough: 3) start "
+              "3,000,000 and 16,777,215..16,777,217); S5: exactly 240/241/2287/2288/2289 nine-byte exceptions; constant-derived: "
+              "value pairs whose difference is a convergent denominator of K / 2^64 for every odd 64-bit immediate K of the "
+              "library's machine code) through every codec entry point on the real code, each typed input at 2 (thorough: 3) start "
               "alignments (flush against the guard page, 1 and 3 elements earlier), in each build configuration "
               "(pinned, -march=native; thorough also x86-64-v2, -v3, -O0 with asserts, ASan); a class is a distinct (codec, header-length class, width class, exception / "
               "block structure) combination reached")
